@@ -14,6 +14,7 @@ package flood
 import (
 	"fmt"
 	"net"
+	"strings"
 	"testing"
 
 	"github.com/postalsys/muti-metroo/internal/verifkit"
@@ -244,6 +245,29 @@ func TestVerif_C12(t *testing.T) {
 		c12Judge(r, "reroute", ci, res)
 	})
 	r.Require("reroute_cases", 300)
+	// a peer joins while the other end of the link is relaying an announcement
+	var joinGraphs []simGraph
+	for n := 3; n <= 5; n++ {
+		joinGraphs = append(joinGraphs, graphs[n]...)
+	}
+	r.Cases("joinrelay", r.N(600, 40000), func(ci int, rng *verifkit.Rand) {
+		var g simGraph
+		switch ci % 3 {
+		case 0:
+			g = simChain(rng.Range(3, 6))
+		case 1:
+			g = simRandomConnectedGraph(rng, rng.Range(4, 6), 10) // tree-like: many bridges
+		default:
+			g = joinGraphs[rng.Intn(len(joinGraphs))]
+		}
+		res := convJoinDuringRelay(rng, g)
+		defer res.Close()
+		if strings.Contains(res.Desc, "joined while") {
+			r.Add("joins_injected_during_relay", 1)
+		}
+		c12Judge(r, "joinrelay", ci, res)
+	})
+	r.Require("joins_injected_during_relay", 200)
 	// origins whose route set needs several advertisements (> 254 routes or > byte budget)
 	r.Cases("large", r.N(40, 2500), func(ci int, rng *verifkit.Rand) {
 		class := "flood"
